@@ -92,6 +92,15 @@ def parse_factor(e: ast.AST, partials: str) -> Factor:
             raise Unsupported(p, 'partial subscript must be partials[child]')
         f.c_partial = pe[0].id
         return f
+    while True:
+        if isinstance(e, ast.Call) and isinstance(e.func, ast.Attribute) and e.func.attr in ('transpose', 't', 'permute', 'swapaxes'):
+            f.transposed = True
+            e = e.func.value
+        elif isinstance(e, ast.Attribute) and e.attr in ('mT', 'T', 'mH'):
+            f.transposed = True
+            e = e.value
+        else:
+            break
     if isinstance(e, ast.Subscript) and isinstance(e.value, ast.Name):
         elts = slice_elts(e)
         if isinstance(elts[0], ast.Constant) and elts[0].value is Ellipsis and len(elts) >= 4 and isinstance(elts[1], ast.Name):
